@@ -129,7 +129,9 @@ func (s *Server) serve(ctx context.Context, listener net.Listener, handler Modbu
 		s.OnServeFunc(listener.Addr())
 	}
 
+	s.mu.Lock()
 	s.listener = listener
+	s.mu.Unlock()
 	l := onceCloseListener{Listener: listener}
 	defer l.Close()
 
